@@ -546,18 +546,9 @@ eqv('e24_now_helper', A, '''        let timestamp = std::time::SystemTime::now()
         }
 
         // Handle entry-count limits''', 'clock read moved into a helper (helper added by apply)')
-eqv('e25_estimator_rewrites', ME, '''        let base = size_of::<Self>();
-        let buffer = self.capacity() * size_of::<T>();
-        let heap_extras: usize = self
-            .iter()
-            .map(|item| item.estimate_memory().saturating_sub(size_of_val(item)))
-            .sum();
-        base + buffer + heap_extras''', '''        let heap_extras: usize = self
-            .iter()
-            .map(|item| item.estimate_memory().saturating_sub(size_of::<T>()))
-            .sum();
-        let buffer = size_of::<T>() * self.capacity();
-        heap_extras + size_of_val(self) + buffer''', 'Vec estimator: operands reordered, size_of_val for size_of')
+eqv('e25_estimator_rewrites', ME, 'let buffer = self.capacity() * size_of::<T>();', 'let buffer = size_of::<T>() * self.capacity();', 'Vec estimator: product operands swapped')
+eqv('e29_estimator_size_of_elem', ME, '.map(|item| item.estimate_memory().saturating_sub(size_of_val(item)))', '.map(|item| item.estimate_memory().saturating_sub(size_of::<T>()))', 'size_of::<T>() for size_of_val(item)')
+eqv('e30_estimator_size_of_val_self', ME, '        let base = size_of::<Self>();', '        let base = size_of_val(self);', 'size_of_val(self) for size_of::<Self>()')
 eqv('e26_option_estimator_match', ME, '''        size_of::<Self>()
             + self
                 .as_ref()
